@@ -77,8 +77,17 @@ pub fn run(head: &str, args: &[Sexp]) -> Option<Sexp> {
             Type::Ip
         }
         "in-bytes" => {
-            for it in items {
-                lits.push(quoted_bytes(it.as_bytes()?));
+            // the notation of an item must not matter to membership: items are written, by position, as a
+            // quoted string of \xHH escapes, as hex pairs (two bytes or more), or as a raw string (printable
+            // ASCII without quote) - one list mixes the notations
+            for (i, it) in items.iter().enumerate() {
+                let b = it.as_bytes()?;
+                let raw_ok = !b.is_empty() && b.iter().all(|x| (0x20..0x7f).contains(x) && *x != b'"');
+                lits.push(match i % 3 {
+                    1 if b.len() >= 2 => b.iter().map(|x| format!("{:02x}", x)).collect::<Vec<_>>().join(":"),
+                    2 if raw_ok => format!("r#\"{}\"#", String::from_utf8_lossy(b)),
+                    _ => quoted_bytes(b),
+                });
             }
             for p in probes {
                 values.push(match p.as_opt()? {
